@@ -12,7 +12,7 @@ from __future__ import annotations
 import itertools
 import threading
 
-from lib import e5ref, stuck, vtime, wire
+from lib import e5ref, gen, stuck, vtime, wire
 
 PROPERTY = "C11"
 LEVEL = "exploration"
@@ -55,7 +55,7 @@ class Run:
         elif probe == "none":
             self.rig.auto_policy[(1, 1)] = lambda f: None
         self.ok = self.rig.establish()
-        self.sysgen = itertools.count(0x60000000 + ctx.rng.randrange(1 << 16) * 512)
+        self.sysgen = gen.system_bytes(ctx.rng, 0x60000000 + ctx.rng.randrange(1 << 16) * 512, p=0.04)
         self.hist = []
         self.bad = False
         self.transitions = 0
